@@ -135,7 +135,9 @@ def run_case(case, ctx):
         ctx.check(not bool(bad.any()), "gradient_handle", "NOT-THE-DERIVATIVE",
                   lambda: f"{name}(par={par}): at (x, m) = {list(zip(x[bad][:3].tolist(), m[bad][:3].tolist()))} gradient handle gives {g[bad][:3].tolist()} but d/dm of the "
                           f"function handle is {dref[bad][:3].tolist()} ({int(bad.sum())} of {int((~skip).sum())} points)",
-                  frac=("most" if bad.mean() > 0.5 else "some"))
+                  frac=("most" if bad.mean() > 0.5 else "some"),
+                  # mechanism of known finding C12-K1: the handle returns exactly (r + 1)/(1 + m) - x/(m + eps)
+                  pinned_formula=bool(name == "NEGATIVE_BINOMIAL" and np.max(np.abs(g - ((par + 1) / (1 + m) - x / (m + 1e-10))) / scale) <= 1e-9))
         ctx.check(g.shape == x.shape and np.asarray(r2.value).shape == x.shape, "handle", "WRONG-SHAPE", "handles must act element-wise")
         return
     # ---- tensor level ---------------------------------------------------------------------------
@@ -185,12 +187,20 @@ def run_case(case, ctx):
     for k in range(N):
         Gp = refops.mttkrp(Yh, fm, k, weights=lam)
         gs = float(np.max(np.abs(refops.mttkrp(np.abs(Yh), [np.abs(f) for f in fm], k, weights=np.abs(lam))))) + 1e-300
+        Gnw = refops.mttkrp(Yh, fm, k)
         ctx.check(np.asarray(G[k]).shape == Gp.shape and bool(np.max(np.abs(G[k] - Gp)) <= 1e-10 * gs), "evaluate", "WRONG-GRADIENT-PLUMBING",
-                  lambda k=k, Gp=Gp: f"mode {k}: gradient {np.asarray(G[k]).tolist()} vs MTTKRP of the weighted gradient-handle values {Gp.tolist()}", mode_k=min(k, 3))
+                  lambda k=k, Gp=Gp: f"mode {k}: gradient {np.asarray(G[k]).tolist()} vs MTTKRP of the weighted gradient-handle values {Gp.tolist()}", mode_k=min(k, 3),
+                  ignores_weights=bool(np.asarray(G[k]).shape == Gnw.shape and np.max(np.abs(G[k] - Gnw)) <= 1e-9 * gs))
     for k in range(N):
         gs = float(np.max(np.abs(refops.mttkrp(np.abs(Y), [np.abs(f) for f in fm], k, weights=np.abs(lam))))) + 1e-300
+        Gp_k = refops.mttkrp(Yh, fm, k, weights=lam)
+        Gnw_k = refops.mttkrp(Yh, fm, k)
         ctx.check(np.asarray(G[k]).shape == Gref[k].shape and bool(np.max(np.abs(G[k] - Gref[k])) <= tolg * gs), "evaluate", "WRONG-GRADIENT",
-                  lambda k=k: f"mode {k}: gradient {np.asarray(G[k]).tolist()} vs exact partial derivatives {Gref[k].tolist()}", mode_k=min(k, 3))
+                  lambda k=k: f"mode {k}: gradient {np.asarray(G[k]).tolist()} vs exact partial derivatives {Gref[k].tolist()}", mode_k=min(k, 3),
+                  # mechanisms of the known findings: the result is the MTTKRP of the gradient-handle values (C12-K2) / of those values with
+                  # the Kruskal weights left out (C12-K3)
+                  follows_handle=bool(np.asarray(G[k]).shape == Gp_k.shape and np.max(np.abs(G[k] - Gp_k)) <= 1e-9 * gs),
+                  ignores_weights=bool(np.asarray(G[k]).shape == Gnw_k.shape and np.max(np.abs(G[k] - Gnw_k)) <= 1e-9 * gs))
     # function-only and gradient-only call forms agree with the joint form
     r1 = ctx.call("evaluate", evaluate, M, X, None if W is None else W.copy(), fh, None)
     r2 = ctx.call("evaluate", evaluate, M, X, None if W is None else W.copy(), None, gh)
@@ -244,8 +254,9 @@ def run_case(case, ctx):
         ctx.check(abs(Fe - Funw) <= 1e-9 * fs2, "estimate", "WRONG-OBJECTIVE", f"estimate over all entries {Fe!r} vs exact {Funw!r}")
         for k in range(N):
             gs = float(np.max(np.abs(refops.mttkrp(np.abs(dref.reshape(shape)), [np.abs(f) for f in fm], k)))) + 1e-300
+            Gh_k = refops.mttkrp(np.asarray(gh(Xd, Md), dtype=float), fm, k)
             ctx.check(bool(np.max(np.abs(Ge[k] - Gunw[k])) <= tolg * gs), "estimate", "WRONG-GRADIENT", f"mode {k}: sampled gradient on all entries differs from the exact one",
-                      mode_k=min(k, 3))
+                      mode_k=min(k, 3), follows_handle=bool(np.max(np.abs(Ge[k] - Gh_k)) <= 1e-9 * gs))
         # semi-stratified form of the same identity: the stored nonzeros are sampled as "nonzeros flagged for the zero correction"
         # (they contribute f(x,m) - f(0,m)), every entry is sampled as a zero (f(0,m)); repeated draws carry reciprocal weights.  Over all
         # entries the estimator is again the exact objective / gradient of the (sparse) data -- for one, two or many nonzeros.
@@ -282,5 +293,7 @@ def run_case(case, ctx):
             for k in range(N):
                 Gs = refops.mttkrp(drefs.reshape(shape), fm, k)
                 gs = float(np.max(np.abs(refops.mttkrp(np.abs(drefs.reshape(shape)) + np.abs(np.asarray(gh(np.zeros(shape), Md), dtype=float)), [np.abs(f) for f in fm], k)))) + 1e-300
+                Gh_k = refops.mttkrp(np.asarray(gh(Xs, Md), dtype=float), fm, k)
                 ctx.check(bool(np.max(np.abs(Ge[k] - Gs)) <= tolg * gs), "estimate", "WRONG-GRADIENT", f"mode {k}: semi-stratified gradient over all entries differs from the exact one",
-                          mode_k=min(k, 3), semistrat=True, one_nonzero=bool(len(pos) == 1), unit_weights=bool(a == 1 and b == 1))
+                          mode_k=min(k, 3), semistrat=True, one_nonzero=bool(len(pos) == 1), unit_weights=bool(a == 1 and b == 1),
+                          follows_handle=bool(np.max(np.abs(Ge[k] - Gh_k)) <= 1e-9 * gs))
